@@ -622,3 +622,7 @@ package bt
 //@   pure
 //@ func bt.(*Tx).estimateDeficit
 //@   pure
+//@ func bt.(*Tx).From
+//@   requires (spec.inputs_nonnil tx)
+//@   requires (forall ((k Int)) (=> (and (<= 0 k) (< k (len (. tx Inputs)))) (allocated (at (. tx Inputs) k))))
+//@   ensures[C12.from_outputs_untouched] (= (. tx Outputs) (old (. tx Outputs)))
